@@ -2,7 +2,7 @@
 // or a returned error: never a panic, never two responses, never a continuation
 // into the grant logic after an error was already answered.
 //
-// Three bounded-exhaustive grammars (engine E1), all executed on the real code:
+// Four bounded-exhaustive grammars (engine E1), all executed on the real code:
 //
 //	(a) req      HTTP request deviations per endpoint x {Provider router, LegacyServer
 //	             router, exported grant handler called directly}
@@ -10,6 +10,9 @@
 //	             oidc.ParseToken, to every generic verifier (signed and unsigned) and,
 //	             signed with the provider's / the client's own key, to every token
 //	             consuming HTTP endpoint
+//	(a2) tok     token-string alphabet T (tokalpha_test.go) at every place where a
+//	             token, code or assertion is accepted: HTTP (tok, tok-pairs), library
+//	             verifiers (tok-lib), provider answers to client helpers (tok-hostile)
 //	(c) hostile  scripted provider answers (status x body shape x member shape) to
 //	             every client side helper, inside a synctest bubble with a fake-time
 //	             context deadline
@@ -359,7 +362,7 @@ func site(stack string) string {
 			continue
 		}
 		s := shortFn(f.fn)
-		if reReader.MatchString(s) {
+		if reReader.MatchString(s) && s != "oidc.CheckSignature" { // CheckSignature parses the token itself: a site of its own
 			continue
 		}
 		return s
@@ -416,7 +419,7 @@ func clip(s string, n int) string {
 
 func TestCheck(t *testing.T) {
 	c := engine.Start(t, "C09")
-	c.SetRule("E1, three parts. req: per (endpoint x entry) the baseline request and every <=k simultaneous deviations over method, content type, body mangling, Authorization header, grant_type string, added parameter, and one value-deviation slot per baseline parameter. doc: per sink (decoder type / ParseToken / verifier signed+unsigned / token consuming endpoint) every top-level shape of V and every <=k member deviations (member := absent | v in V) of the valid document, member list derived from the json tags of the sink's Go type. hostile: per client helper the full product status x body shape, plus every <=k member deviations of the valid answer. distinct = (part, oracle rule, observed outcome class)")
+	c.SetRule("E1, three parts. req: per (endpoint x entry) the baseline request and every <=k simultaneous deviations over method, content type, body mangling, Authorization header, grant_type string, added parameter, and one value-deviation slot per baseline parameter. doc: per sink (decoder type / ParseToken / verifier signed+unsigned / token consuming endpoint) every top-level shape of V and every <=k member deviations (member := absent | v in V) of the valid document, member list derived from the json tags of the sink's Go type. hostile: per client helper the full product status x body shape, plus every <=k member deviations of the valid answer. tok: full product (place that accepts a token / code / assertion) x entry x token-string alphabet T (unissued base64url of n bytes, strings sealed under the provider's crypto key with a plaintext that is not id:subject, prefixes and surface mutations of real tokens, dot skeletons, real JWTs with a malformed header / payload / signature segment, JWS JSON serialisations, tokens of other kinds); tok-pairs: two places of one request, T' x T'; tok-lib: T to every library verifier / parser / decrypter; tok-hostile: T as id_token / access_token / refresh_token of an otherwise honest token response to every client helper of the token endpoint. distinct = (part, oracle rule, observed outcome class)")
 	c.Assume(
 		"refstore is a correct storage (DESIGN §1.4); panics are attributed to the innermost /repo frame",
 		"a handler that writes nothing (net/http then sends 200 with an empty body) counts as one well-formed response",
